@@ -112,6 +112,7 @@ type Dataset struct {
 	Versions map[string][]*Version // id -> versions in order
 	Feed     []*Version            // change feed
 	Order    []string              // ids in order of first storage
+	Foreign  map[string]bool       // ids stored by a harness outside the model's id space (counted, not modelled)
 }
 
 func (d *Dataset) Latest(id string) *Version {
@@ -400,7 +401,7 @@ func (d *Dataset) LatestOnlyFeed() []*Version {
 }
 
 // DistinctIDs is the number of distinct ids ever stored in the dataset.
-func (d *Dataset) DistinctIDs() int { return len(d.Versions) }
+func (d *Dataset) DistinctIDs() int { return len(d.Versions) + len(d.Foreign) }
 
 // Describe returns a compact dump for messages.
 func (w *World) Describe() string {
@@ -451,4 +452,14 @@ func (w *World) Compact(ds string) int {
 	}
 	d.Feed = feed
 	return len(removed)
+}
+
+
+// NoteForeignID records that an entity with the given (non-harness) id was stored in the dataset: it counts as one
+// distinct id for DistinctIDs and is otherwise invisible to the model.
+func (d *Dataset) NoteForeignID(id string) {
+	if d.Foreign == nil {
+		d.Foreign = map[string]bool{}
+	}
+	d.Foreign[id] = true
 }
